@@ -165,6 +165,34 @@ def _replay(job):
                         "%s: filtered %s vs selected-only %s" % (
                             {k: case[k] for k in ("inst", "mask", "poison")},
                             str(ra)[:120], str(rb)[:120])))
+    # --- the mask that comes with downsampled scatter data identifies the
+    # returned events within the whole dataset: nothing excluded is marked,
+    # on the selected events it is the mask of the selected-only dataset
+    for dsz in (3, 0):
+        ra = call(lambda: A.get_downsampled_scatter(
+            xax="area_um", yax="deform", downsample=dsz, ret_mask=True))
+        rb = call(lambda: B.get_downsampled_scatter(
+            xax="area_um", yax="deform", downsample=dsz, ret_mask=True))
+        n += 1
+        if ra[0] != "ok" or rb[0] != "ok":
+            if ra[0] != rb[0]:
+                out.append(("excluded events influence the result of "
+                            "downsampled scatter with mask (filters %s)"
+                            % tag, "%s vs %s" % (ra, rb)))
+            continue
+        ma, mb = ra[1][2].astype(bool), rb[1][2].astype(bool)
+        sel = np.asarray(A.filter.all, dtype=bool)
+        ok = len(ma) == len(sel) and not ma[~sel].any() \
+            and len(mb) == int(sel.sum()) and np.array_equal(ma[sel], mb)
+        if ok:
+            ok = np.allclose(np.asarray(A["area_um"])[ma], ra[1][0],
+                             rtol=1e-12, atol=0, equal_nan=True)
+        if not ok:
+            out.append(("mask of downsampled scatter data does not identify "
+                        "the returned events in the dataset (filters %s)"
+                        % tag, "downsample=%d mask %s selected %s" % (
+                            dsz, ma.astype(int).tolist(),
+                            sel.astype(int).tolist())))
     # --- a density estimate is a function of the events and the position:
     # what is reported for a position does not depend on how many other
     # positions are asked for in the same call
